@@ -407,6 +407,39 @@ def equality_clause(n, seed, acc):
                 acc.violation(driver="pairs", config={"a": ra, "b": rb, "seed": seed, "n": n},
                               fields={"class": type(a).__name__, "what": "equal_but_hash_differs"},
                               kind="equality", observed=[hash(a), hash(b)], expected="equal hashes")
+    # equal parameters held in a different memory layout (caller passes a Fortran-ordered array;
+    # the library's own transposes wrap transposed views) still mean == and equal hash
+    from mici import matrices as M
+    layout_pairs = []
+    for r in mzoo.leaf_recipes(n):
+        layout_pairs.append((f"layout:{r[1]}", lambda r=r: mzoo.build(["leaf", r[1], r[2]], seed)[0],
+                             lambda r=r: mzoo.build(["leaf_f", r[1], r[2]], seed)[0]))
+    Lt = mzoo.P_tri(n, seed, True)
+    Rr = mzoo.P_rect(n, max(1, n - 1), seed)
+    Qo = mzoo.P_orth(n, seed)
+    layout_pairs += [
+        ("layout:triangular.T", lambda: M.TriangularMatrix(Lt.copy(), lower=True).T,
+         lambda: M.TriangularMatrix(Lt.T.copy(), lower=False)),
+        ("layout:rectangular.T", lambda: M.DenseRectangularMatrix(Rr.copy()).T,
+         lambda: M.DenseRectangularMatrix(Rr.T.copy())),
+        ("layout:orthogonal.inv", lambda: M.OrthogonalMatrix(Qo.copy()).inv,
+         lambda: M.OrthogonalMatrix(Qo.T.copy())),
+    ]
+    for label, fa, fb in layout_pairs:
+        acc.count("equality_pairs")
+        try:
+            a, b = fa(), fb()
+        except Exception:  # noqa: BLE001
+            continue
+        cfgp = {"pair": label, "seed": seed, "n": n}
+        if type(a) is not type(b) or not np.array_equal(np.array(a.array), np.array(b.array)):
+            continue  # not the same value after all (harness construction, not judged)
+        if not (a == b) or hash(a) != hash(b):
+            acc.violation(driver="pairs", config=cfgp,
+                          fields={"class": type(a).__name__,
+                                  "what": "equal_parameters_other_layout_not_equal_or_hash"},
+                          kind="equality", observed=[bool(a == b), hash(a) == hash(b)],
+                          expected="== and equal hash")
     for label, fa, fb in direct_pairs(n, seed):
         acc.count("equality_pairs")
         a, b = fa(), fb()
